@@ -15,6 +15,35 @@ def vtup(q): return {"k": "t", "i": 0, "s": list(q), "x": "", "ks": []}
 def vlist(q): return {"k": "l", "i": 0, "s": list(q), "x": "", "ks": []}
 def vdict(ks, q): return {"k": "d", "i": 0, "s": list(q), "x": "", "ks": list(ks)}
 def verr(): return {"k": "err", "i": 0, "s": [], "x": "", "ks": []}
+def vgrid(rows): return {"k": "g", "i": 0, "s": list(rows), "x": "", "ks": []}
+
+
+class Grid:
+    """A container with the indexing convention of numpy / pandas (the value kind "g" of spec/Dataflow.tla):
+    g[i] is row i (a list), g[[i, j]] the list of the rows i and j (a LIST key selects several rows), g[i, j] the cell at
+    row i, column j (a TUPLE key addresses one cell).  It has no length and no truth value of its own (always true)."""
+
+    def __init__(self, rows):
+        self.rows = [list(r) for r in rows]
+
+    def __getitem__(self, key):
+        if isinstance(key, list):
+            return [list(self.rows[i]) for i in key]
+        if isinstance(key, tuple):
+            i, j = key
+            return self.rows[i][j]
+        return list(self.rows[key])
+
+    def __eq__(self, other):
+        return isinstance(other, Grid) and self.rows == other.rows
+
+    def __ne__(self, other):
+        return not self == other
+
+    __hash__ = None
+
+    def __repr__(self):
+        return f"Grid({self.rows!r})"
 
 
 def encode(v):
@@ -34,6 +63,8 @@ def encode(v):
     if isinstance(v, dict):
         ks = list(v.keys())
         return vdict(ks, (encode(v[k]) for k in ks))
+    if isinstance(v, Grid):
+        return vgrid(encode(r) for r in v.rows)
     return {"k": "err", "i": 0, "s": [], "x": repr(v)[:40], "ks": []}
 
 
@@ -53,11 +84,15 @@ def decode(j):
         return [decode(x) for x in j["s"]]
     if k == "d":
         return {a: decode(b) for a, b in zip(j["ks"], j["s"])}
+    if k == "g":
+        return Grid(decode(x) for x in j["s"])
     raise ValueError(j)
 
 
-def key_i(i): return {"k": "i", "i": i, "x": ""}
-def key_s(x): return {"k": "s", "i": 0, "x": x}
+def key_i(i): return {"k": "i", "i": i, "x": "", "q": []}
+def key_s(x): return {"k": "s", "i": 0, "x": x, "q": []}
+def key_li(q): return {"k": "li", "i": 0, "x": "", "q": list(q)}      # obj[[i, j]]: a list key
+def key_ti(q): return {"k": "ti", "i": 0, "x": "", "q": list(q)}      # obj[i, j]: a tuple key
 def r_const(v): return {"c": "const", "v": encode(v), "n": 0, "path": []}
 def r_param(n, path=()): return {"c": "param", "v": vnone(), "n": n, "path": list(path)}
 def r_site(n, path=()): return {"c": "site", "v": vnone(), "n": n, "path": list(path)}
@@ -71,6 +106,8 @@ PAIR_VALUES = [(1, (2, 1)), (0, (5, 0)), ("a", (3, "a")), ([], (4, []))]      # 
 
 def value_for(ptype, rng):
     """An argument value for a parameter of the given type ("int", "any", "pair")."""
+    if ptype == "grid":
+        return Grid([[1, 2], [3, 4], [5, 6]])
     return rng.choice({"int": INT_VALUES, "pair": PAIR_VALUES}.get(ptype, FLAG_VALUES))
 BINOPS = ["add", "sub", "mul", "lt", "ge", "eq", "ne", "floordiv", "mod"]
 
@@ -114,6 +151,11 @@ class Gen:
                 # the parameter indexed in the body (p[0], p[1], p[1][0]): twice over when the argument is an indexed result
                 self.anys += [r_param(p + 1, [key_i(0)]), r_param(p + 1, [key_i(1)]), r_param(p + 1, [key_i(1), key_i(0)])]
                 self.ints.append(r_param(p + 1, [key_i(1), key_i(0)]))
+            if ptypes[p] == "grid":
+                # a grid handed to a nested DAG whose body indexes it with list / tuple / int keys
+                q = rng.sample(range(3), rng.randint(1, 3))
+                self.anys += [r_param(p + 1, [key_li(q)]), r_param(p + 1, [key_li(q), key_i(0)]), r_param(p + 1, [key_ti([rng.randrange(3), rng.randrange(2)])]),
+                              r_param(p + 1, [key_i(rng.randrange(3))])]
         self.sites, self.subs = [], []
         self.flagged = False
         self.setups = []        # references to results of the setup call sites of this DAG
@@ -122,6 +164,8 @@ class Gen:
         self.whole_subs = []
         if self.focus == "indexed-arg-sub" and self.depth == 0:
             self.seed_indexed_pair()
+        if self.focus == "grid" and self.depth == 0:
+            self.seed_grid()
         for _ in range(self.nsites):
             self.add_site()
         if rng.random() < self.p_debug and self.sites:
@@ -140,7 +184,34 @@ class Gen:
                     [r_site(3, [key_i(x)]) for x in range(len(Q["ret"]["refs"]))])
             refs = outs + (ret["refs"][:2] if ret and ret["shape"] in ("tuple", "list") else [])
             ret = {"shape": "tuple", "refs": refs, "keys": []}
+        if self.focus == "grid" and self.depth == 0:
+            # what the usages with list / tuple / int keys delivered must be visible in the returned value
+            refs = [r_site(2)] + (ret["refs"][:2] if ret and ret["shape"] in ("tuple", "list") else [])
+            ret = {"shape": "tuple", "refs": refs, "keys": []}
         return {"params": params, "ptypes": ptypes, "sites": self.sites, "ret": ret, "subs": self.subs}
+
+    def seed_grid(self):
+        """s1 = mkgrid(c, x, y), a container that tells a list key from a tuple key; s2 = mix(c, s1[[i, j]], s1[i, j], s1[i]).
+        The usages of s1 with list keys, tuple keys and int keys (also followed by further keys) join the pool the other
+        call sites (nested DAGs and activation flags among them) draw from."""
+        rng = self.rng
+        base = {"kind": "call", "kw": [], "active": r_none(), "unpack": 0, "sub": 0, "setup": False}
+        self.sites.append(dict(base, fn="mkgrid", args=[self.unique_const(), self.any_ref(), self.any_ref()]))
+        rows = [rng.sample(range(3), rng.randint(1, 3)) for _ in range(3)]
+        cells = [[rng.randrange(3), rng.randrange(2)] for _ in range(3)]
+        uses = [r_site(1)]
+        for q in rows:
+            uses += [r_site(1, [key_li(q)]), r_site(1, [key_li(q), key_i(len(q) - 1)]), r_site(1, [key_li(q), key_i(0), key_i(rng.randrange(2))])]
+        for q in cells:
+            uses.append(r_site(1, [key_ti(q)]))
+        uses += [r_site(1, [key_i(rng.randrange(3))]), r_site(1, [key_i(rng.randrange(3)), key_i(rng.randrange(2))])]
+        self.anys += uses
+        self.flagpool += [r_site(1, [key_ti(q)]) for q in cells]
+        self.sites.append(dict(base, fn="mix", args=[self.unique_const(), r_site(1, [key_li(rows[0])]), r_site(1, [key_ti(cells[0])]), uses[-2]]))
+        self.anys += [r_site(2), r_site(2, [key_i(1)])]
+        self.typed["t"].append(r_site(2))
+        if rng.random() < 0.5 and self.depth < self.max_depth:
+            self.add_sub_site(dict(base, fn="mix", args=[]), 3, pair_arg=r_site(1), arg_type="grid")
 
     def seed_indexed_pair(self):
         """s1 = pair(c, x); s2 = mix(c, s1); then a nested DAG called (no flag) with s2[1] for a parameter that its body indexes
@@ -365,7 +436,7 @@ class Gen:
             self.ints = self.ints[:n_ints]
         self.sites.append(site)
 
-    def add_sub_site(self, site, j, force=False, pair_arg=None):
+    def add_sub_site(self, site, j, force=False, pair_arg=None, arg_type="pair"):
         rng = self.rng
         reuse = bool(self.subs) and rng.random() < 0.15 and not force and pair_arg is None
         want_flag = ((self.allow_flags and rng.random() < 0.25) or force) and pair_arg is None
@@ -379,13 +450,13 @@ class Gen:
             ppr = 0.4 if want_flag else 0.1
             g = Gen(rng, self.depth + 1, self.max_depth, allow_flags=not want_flag and self.allow_flags,
                     nparams=rng.randint(0, 3) if pair_arg is None else rng.randint(1, 2), nsites=rng.randint(1, 4), p_sub=self.p_sub, p_param_ret=ppr,
-                    first_ptype="pair" if pair_arg is not None else None, p_debug=self.p_debug)
+                    first_ptype=arg_type if pair_arg is not None else None, p_debug=self.p_debug)
             Q = g.gen()
             tries = 0
             while Q["ret"] is None and tries < 20:
                 g = Gen(rng, self.depth + 1, self.max_depth, allow_flags=not want_flag and self.allow_flags,
                         nparams=rng.randint(0, 3) if pair_arg is None else rng.randint(1, 2), nsites=rng.randint(1, 4), p_sub=self.p_sub, p_param_ret=ppr,
-                        first_ptype="pair" if pair_arg is not None else None, p_debug=self.p_debug)
+                        first_ptype=arg_type if pair_arg is not None else None, p_debug=self.p_debug)
                 Q = g.gen()
                 tries += 1
             if Q["ret"] is None:
